@@ -371,6 +371,30 @@ def run(ctx: Any, prog: Program) -> None:
                               'and comes back changed', func=f'BSP.{wname}', text=f'{wname}: no saturation `{U(c)[:40]}`')
     ctx.check('C11.L22', True, bsp, bsp.tree, f'{n22} saturating clamps found in lump writers', func='BSP', text='lump writers examined for saturating clamps')
 
+    # ---- L25: find_or_insert answers with the position the item really has ------------------------------------------------------------------
+    # the index handed back for a new item is its position in the list: `len(item_list)` taken just before the append.  The size of the key
+    # map is a different number as soon as two entries of the list share a key (the same plane listed twice, two spellings of one material).
+    ctx.rule('C11.L25', 'find_or_insert returns len(<list>) for a newly appended item', floor=1)
+    bf = prog.module('binformat')
+    foi = bf.func('find_or_insert')
+    lst_p = foi.args.args[0].arg
+    inner = [n for n in foi.body if isinstance(n, ast.FunctionDef)]
+    ctx.shape('C11.L25', len(inner) == 1, bf, foi, 'find_or_insert defines one inner finder function', func='find_or_insert', text='finder closure')
+    for fnd in inner:
+        appends = [c for c in ast.walk(fnd) if isinstance(c, ast.Call) and isinstance(c.func, ast.Attribute) and c.func.attr == 'append' and dotted(c.func.value) == lst_p]
+        new_idx = [a for a in ast.walk(fnd) if isinstance(a, ast.Assign) and any(isinstance(t, ast.Subscript) for t in a.targets) and any(isinstance(t, ast.Name) for t in a.targets)]
+        if len(appends) != 1 or len(new_idx) != 1:
+            ctx.shape('C11.L25', False, bf, fnd, f'finder: {len(appends)} appends to the list and {len(new_idx)} index assignments (1 and 1 expected)', func='find_or_insert', text='new index = len(list)')
+            continue
+        v_ = new_idx[0].value
+        is_len = isinstance(v_, ast.Call) and dotted(v_.func) == 'len' and len(v_.args) == 1
+        before = new_idx[0].lineno < appends[0].lineno
+        if is_len:
+            ctx.check('C11.L25', dotted(v_.args[0]) == lst_p and before, bf, new_idx[0], f'find_or_insert numbers a new item with `{U(v_)}`' + (' after the append' if not before else '') + f': its position in `{lst_p}` is len({lst_p}) before '
+                      'the append - the key map is smaller than the list whenever two entries share a key, so the index points at an earlier, different entry', func='find_or_insert', text='new index = len(list)')
+        else:
+            ctx.shape('C11.L25', False, bf, new_idx[0], f'new index computed as `{U(v_)[:40]}`', func='find_or_insert', text='new index = len(list)')
+
     # ---- L23: what a reader takes from a shared table is that table's own object ------------------------------------------------------------
     # cross-lump references are rebuilt by the writers with `find_or_insert(self.<table>)`, whose default key is the object's identity.  A
     # reader that hands out a *copy* of the table entry (`verts[a].copy()`) breaks the link: on save the copy is not found, is appended as a
@@ -869,6 +893,7 @@ def run(ctx: Any, prog: Program) -> None:
 
 
 MUTANTS = [
+    {'id': 'find_or_insert_numbers_by_key_map', 'file': 'binformat.py', 'find': "            ind = by_index[key] = len(item_list)\n", 'replace': "            ind = by_index[key] = len(by_index)\n", 'expect': 'C11.L25'},
     {'id': 'surfedge_reader_copies_vertexes', 'file': 'bsp.py', 'find': "            Edge(verts[a], verts[b])\n", 'replace': "            Edge(verts[a].copy(), verts[b].copy())\n", 'expect': 'C11.L23'},
     {'id': 'brushside_flags_joined_with_or', 'file': 'bsp.py', 'find': "                    side.is_bevel_plane | side._unknown_bevel_bits,", 'replace': "                    side.is_bevel_plane or side._unknown_bevel_bits,", 'expect': 'C11.L24'},
     {'id': 'visleaf_bounds_saturated', 'file': 'bsp.py', 'find': "                    int(leaf.mins.x), int(leaf.mins.y), int(leaf.mins.z),\n                    int(leaf.maxes.x), int(leaf.maxes.y), int(leaf.maxes.z),\n                    face_ind, len(leaf.faces),\n                    brush_ind, len(leaf.brushes),\n                    leaf.water_id)", 'replace': "                    min(max(int(leaf.mins.x), -0x8000), 0x7FFF), int(leaf.mins.y), int(leaf.mins.z),\n                    int(leaf.maxes.x), int(leaf.maxes.y), int(leaf.maxes.z),\n                    face_ind, len(leaf.faces),\n                    brush_ind, len(leaf.brushes),\n                    leaf.water_id)", 'expect': 'C11.L22', 'nth': 0},
